@@ -46,6 +46,8 @@ class Ctx:
             io = res.impl.get(c.id)
             if io and io.get('kept') not in (None, 'ok'):
                 self.violation('an error handed to the caller (Process / LastDebugErr) %s after later calls on the same evaluator' % ('panics in Error()' if io.get('kept') == 'panic' else 'changed its text'), [c], impl=io)
+            if io and io.get('h3') == '0' and self.pid in ('C14', 'C11'):
+                self.violation('in a history, rules.Evaluate / parser.Evaluate on the very object of a call (the same map value, changed in place by the caller between calls) answer differently from Process', [c], impl=io)
             if io and io.get('det') == '0':
                 self.violation('the same rule and object gave two different outcomes in one process (map iteration order, left-over state or chance)', [c], impl=io)
         if 'model' in kw.get('sides', ('impl', 'model')) and not getattr(self, '_kc_done', False):
